@@ -2,10 +2,14 @@
 
 package proxy
 
-import "go.temporal.io/server/client/history"
+import (
+	"time"
+
+	"go.temporal.io/server/client/history"
+)
 
 // verifPoint is a schedule point for the /verif harness; without the "verif" build tag it does nothing.
 func verifPoint(string) {}
 
 // verifTapBroadcast lets the /verif harness capture ownership announcements; without the tag it never does.
-func verifTapBroadcast(*shardManagerImpl, string, history.ClusterShardID) bool { return false }
+func verifTapBroadcast(*shardManagerImpl, string, history.ClusterShardID, time.Time) bool { return false }
